@@ -384,3 +384,130 @@ Proof.
   intros c e s HI. unfold await_t. destruct e as [p|]; [leaf HI|].
   cbn [fst snd]. split; [oa_tac|]. eexists. split; [scan_go|]. apply InvE_created. reflexivity.
 Qed.
+
+(** ** routes: insert_all / drop_unsent are quiet *)
+Definition quiet (id : Z) (outs : list out) : Prop :=
+  forallb neutral outs = true /\ only_about id outs.
+
+Lemma only_about_app id a b : only_about id a -> only_about id b -> only_about id (a ++ b).
+Proof. intros Ha Hb o Ho. apply in_app_or in Ho as [Ho|Ho]; [apply Ha|apply Hb]; exact Ho. Qed.
+
+Lemma only_about_cons id o t : (out_id o = Some id \/ out_id o = None) -> only_about id t -> only_about id (o :: t).
+Proof. intros Ho Ht o' [<-|Hi]; [exact Ho|apply Ht; exact Hi]. Qed.
+
+Lemma only_about_nil id : only_about id [].
+Proof. intros o []. Qed.
+
+Lemma quiet_nil id : quiet id [].
+Proof. split; [reflexivity|apply only_about_nil]. Qed.
+
+Lemma quiet_app id a b : quiet id a -> quiet id b -> quiet id (a ++ b).
+Proof.
+  intros [Ha1 Ha2] [Hb1 Hb2]. split; [|apply only_about_app; assumption].
+  rewrite forallb_app, Ha1, Hb1. reflexivity.
+Qed.
+
+Lemma scan_quiet id st outs : quiet id outs -> scan_list id st outs = st.
+Proof. intros [H _]. apply scan_list_neutral. exact H. Qed.
+
+Lemma insert_all_spec id h p sp paths :
+  quiet id (snd (insert_all id h p sp paths)) /\
+  is_fulfilled (fst (insert_all id h p sp paths)) = is_fulfilled p.
+Proof.
+  revert p sp. induction paths as [|x t IH]; intros p sp; cbn [insert_all].
+  - split; [apply quiet_nil|reflexivity].
+  - specialize (IH (fst (pm_insert p sp (pr_amt x) (pr_fee x))) (sp + 1)).
+    destruct (insert_all id h (fst (pm_insert p sp (pr_amt x) (pr_fee x))) (sp + 1) t) as [p2 outs].
+    cbn [fst snd] in *. destruct IH as [[Hq1 Hq2] Hf]. split.
+    + split; [cbn [forallb neutral]; exact Hq1|].
+      apply only_about_cons; [left; reflexivity|exact Hq2].
+    + rewrite Hf. apply pm_insert_fulfilled.
+Qed.
+
+Lemma drop_unsent_spec id p sp paths :
+  quiet id (snd (drop_unsent id p sp paths)) /\
+  is_fulfilled (fst (drop_unsent id p sp paths)) = is_fulfilled p.
+Proof.
+  revert p sp. induction paths as [|x t IH]; intros p sp; cbn [drop_unsent].
+  - split; [apply quiet_nil|reflexivity].
+  - destruct (unsent (pr_res x)).
+    + specialize (IH (fst (pm_remove p sp (pr_amt x) (pr_fee x))) (sp + 1)).
+      destruct (drop_unsent id (fst (pm_remove p sp (pr_amt x) (pr_fee x))) (sp + 1) t) as [p2 outs].
+      cbn [fst snd] in *. destruct IH as [[Hq1 Hq2] Hf]. split.
+      * split; [cbn [forallb neutral]; exact Hq1|].
+        apply only_about_cons; [left; reflexivity|exact Hq2].
+      * rewrite Hf. apply pm_remove_fulfilled.
+    + apply IH.
+Qed.
+
+Lemma inc_attempts_fulfilled p : is_fulfilled (inc_attempts p) = is_fulfilled p.
+Proof. destruct p; reflexivity. Qed.
+
+(** a transition result: scanner accepts and invariant re-established *)
+Definition accepted (id : Z) (s : scan) (e' : option payment) (outs : list out) : Prop :=
+  only_about id outs /\ exists s', scan_list id (Some s) outs = Some s' /\ InvE e' s'.
+
+Lemma accepted_quiet_prefix id s e' pre outs :
+  quiet id pre -> accepted id s e' outs -> accepted id s e' (pre ++ outs).
+Proof.
+  intros Hq [Ha [s' [Hs Hi]]]. split.
+  - apply only_about_app; [apply Hq|exact Ha].
+  - exists s'. split; [|exact Hi]. rewrite scan_list_app. rewrite (scan_quiet id (Some s) pre Hq). exact Hs.
+Qed.
+
+Lemma accepted_quiet_only id s e : InvE e s -> forall outs, quiet id outs -> accepted id s e outs.
+Proof.
+  intros Hi outs Hq. split; [apply Hq|]. exists s. split; [apply scan_quiet; exact Hq|exact Hi].
+Qed.
+
+(** ** find_route_and_send_payment *)
+Lemma after_pay_accepted id s (p : payment) sp0 paths fv mf
+      (cont : option payment -> Z -> option Z -> option payment * list out * list ans) rest :
+  InvE (Some p) s -> is_fulfilled p = false ->
+  (forall p1 fv1 mf1, is_fulfilled p1 = false ->
+     accepted id s (fst (fst (cont (Some p1) fv1 mf1))) (snd (fst (cont (Some p1) fv1 mf1)))) ->
+  let r := after_pay cont (fun e1 => (e1, [], rest)) id p sp0 paths fv mf in
+  accepted id s (fst (fst (snd r))) (fst r ++ snd (fst (snd r))).
+Proof.
+  intros HI Hf Hc. unfold after_pay.
+  pose proof (drop_unsent_spec id p sp0 paths) as [Hq Hd].
+  destruct (drop_unsent id p sp0 paths) as [p1 evs]. cbn [fst snd] in Hq, Hd.
+  assert (Hdone : accepted id s (Some p) ([] ++ [])) by (apply accepted_quiet_only; [exact HI|apply quiet_nil]).
+  destruct (existsb (fun x => negb (is_sok (pr_res x))) paths && existsb (fun x => negb (unsent (pr_res x))) paths).
+  - destruct (existsb (fun x => unsent (pr_res x)) paths); cbn [fst snd]; [|exact Hdone].
+    apply accepted_quiet_prefix; [exact Hq|]. apply Hc. rewrite Hd. exact Hf.
+  - destruct (existsb (fun x => negb (is_sok (pr_res x))) paths); cbn [fst snd]; [|exact Hdone].
+    apply accepted_quiet_prefix; [exact Hq|]. apply Hc. rewrite Hd. exact Hf.
+Qed.
+
+Lemma good_accepted id t : good id t -> forall c e s, InvE e s -> accepted id s (fst (t c e)) (snd (t c e)).
+Proof. intros Hg c e s Hi. exact (Hg c e s Hi). Qed.
+
+Lemma frs_accepted id : forall answers e c fv mf s, InvE e s ->
+  accepted id s (fst (fst (frs answers id e c fv mf))) (snd (fst (frs answers id e c fv mf))).
+Proof.
+  induction answers as [|a rest IH]; intros e c fv mf s HI.
+  - cbn [frs fst snd]. apply good_accepted; [apply good_abandon|exact HI].
+  - destruct a as [|k fees over res].
+    + cbn [frs fst snd]. apply good_accepted; [apply good_abandon|exact HI].
+    + cbn [frs]. destruct e as [p|]; [|cbn [fst snd]; apply accepted_quiet_only; [exact HI|apply quiet_nil]].
+      destruct p as [r a hp parts h pa pf tot rf|parts h t tot f|parts h r tot f|n r];
+        try (cbn [fst snd]; apply accepted_quiet_only; [exact HI|apply quiet_nil]).
+      destruct (tot * 110 / 100 <? sum (map pr_amt (paths_of fv k fees over res)) + pa).
+      { cbn [fst snd]. apply good_accepted; [apply good_abandon|exact HI]. }
+      destruct (negb (is_retryable_now (Retryable r a hp parts h pa pf tot rf))).
+      { cbn [fst snd]. apply good_accepted; [apply good_abandon|exact HI]. }
+      pose proof (insert_all_spec id h (Retryable r a hp parts h pa pf tot rf) c (paths_of fv k fees over res)) as [Hq Hfi].
+      destruct (insert_all id h (Retryable r a hp parts h pa pf tot rf) c (paths_of fv k fees over res)) as [p1 news].
+      cbn [fst snd] in Hq, Hfi.
+      assert (Hlive2 : is_fulfilled (inc_attempts p1) = false) by (rewrite inc_attempts_fulfilled; exact Hfi).
+      assert (HI2 : InvE (Some (inc_attempts p1)) s) by (eapply InvE_live_to_live; [exact HI|reflexivity]).
+      pose proof (after_pay_accepted id s (inc_attempts p1) c (paths_of fv k fees over res) fv mf
+                    (fun e1 fv1 mf1 => frs rest id e1 (c + Z.of_nat (List.length (paths_of fv k fees over res))) fv1 mf1)
+                    rest HI2 Hlive2) as Hap.
+      cbv zeta in Hap.
+      destruct (after_pay _ _ id (inc_attempts p1) c (paths_of fv k fees over res) fv mf) as [evs [[e' outs] rest']].
+      cbn [fst snd] in *.
+      apply accepted_quiet_prefix; [exact Hq|]. apply Hap.
+      intros p2 fv1 mf1 Hf2. apply IH. eapply InvE_live_to_live; [exact HI|reflexivity].
+Qed.
